@@ -15,8 +15,9 @@ Written from the code as it is (after the `fix:` commits 87007f6, be47852, cb61d
   - `_check_port_in_nets`: `NoWriterError`, then the walk from each writer over the adjacency with
     the port-direction table Types 5–9 and the loop-back rule (`edgeErr`, `walk`);
 * `pymtl3/dsl/ComponentLevel2.py`
-  - `extract_obj_from_names` (operator rules `=`/`@=`/`<<=`, only top-level signals on the LHS of
-    `<<=`): `opErr`;
+  - `extract_obj_from_names` (operator rules `=`/`@=`/`<<=`/`for` target, only top-level signals on the
+    LHS of `<<=`; every write statement is checked, also a second write to an object the block
+    already wrote): `opErr`;
   - `_check_upblk_writes` (more than one block per object, parent chain, overlapping sibling
     slices — the repaired version compares the blocks in the sibling branch too): `upblkErrs`;
   - `_check_port_in_upblk` (Types 1–4): `readErr`, `writeErr`;
@@ -32,7 +33,7 @@ relation between objects ("ancestor or self either way, or overlapping sibling s
 from the structural description of the two objects.
 
 Not modelled: interfaces and method ports, `Placeholder` output ports, lists of fields inside a
-struct, the `for`/other augmented operators on the LHS, the "Please contact pymtl3 developers"
+struct, other augmented operators (`+=` …) on the LHS, the "Please contact pymtl3 developers"
 assertions of the loop-back rule, `add_connection` after elaboration.
 -/
 namespace PV.Nets
@@ -180,6 +181,7 @@ inductive Op where
   | assign   -- `=`
   | at       -- `@=`
   | ff       -- `<<=`
+  | forT     -- target of a `for` loop (`for s.x in …`)
 deriving DecidableEq, Repr
 
 structure Blk where
@@ -299,11 +301,13 @@ def opErr (ff : Bool) (op : Op) (isTop : Bool) : Option Err :=
   if ff then
     match op with
     | .assign => some .updateFFBlockWrite
+    | .forT => some .updateFFBlockWrite
     | .at => some .updateFFBlockWrite
     | .ff => if isTop then none else some .updateFFNonTop
   else
     match op with
     | .assign => some .updateBlockWrite
+    | .forT => some .updateBlockWrite
     | .ff => some .updateBlockWrite
     | .at => none
 
